@@ -16,6 +16,8 @@ use crate::{dprintln, features};
 pub use self::breakpoint::{Breakpoint, Breakpoints};
 #[cfg(lace_verif)]
 pub use self::command::VerifTerminal;
+#[cfg(lace_verif)]
+pub use self::command::verif_access as verif_command;
 
 /// Leave this as a struct, in case more options are added in the future. Plus it is more explicit.
 #[derive(Debug)]
